@@ -368,7 +368,7 @@ def classical_output(init, qc, params):
     return [bits[n - 1 - q] == "1" for q in range(n)]
 
 
-def one_case(ctx, rng, kind, stack, classical, tag):
+def one_case(ctx, rng, kind, stack, classical, tag, second_round=None):
     from qiskit.quantum_info import Statevector
 
     from queasars.circuit_evaluation.bitstring_evaluation import BitstringEvaluator
@@ -376,6 +376,8 @@ def one_case(ctx, rng, kind, stack, classical, tag):
 
     RecEstimator, RecSampler = make_fakes()
     drv = ctx.lean("Pipeline")
+    if second_round is None:
+        second_round = rng.random() < 0.4
     nq = rng.randint(2, 4)
     n_callers = rng.randint(2, 3) if "batching" in stack else 1
     init = gen_init(rng, nq, classical)
@@ -406,7 +408,8 @@ def one_case(ctx, rng, kind, stack, classical, tag):
     inp = {"kind": kind, "stack": stack, "classical": classical, "n_qubits": nq, "init": None if init is None else [i.operation.name for i in init.data],
            "callers": [{"circuits": [[(i.operation.name, [c.find_bit(q).index for q in i.qubits]) for i in c.data] for c in cs], "params": ps} for cs, ps in callers], **desc}
     ctx.case(inp, nontrivial=stack != "plain", tags=[tag, "kind:" + kind, "stack:" + stack, "classical" if classical else "quantum", f"callers:{n_callers}",
-                                                      "init:none" if init is None else ("init:with-cregs" if init.num_clbits else "init:plain")])
+                                                      "init:none" if init is None else ("init:with-cregs" if init.num_clbits else "init:plain"),
+                                                      "evaluator-reused" if second_round else "evaluator-used-once"])
 
     results = [None] * n_callers
     errors = []
@@ -419,38 +422,83 @@ def one_case(ctx, rng, kind, stack, classical, tag):
 
             errors.append(repr(e)[:200] + " @ " + " <- ".join(f"{f.name}:{f.lineno}" for f in traceback.extract_tb(e.__traceback__)[-6:]))
 
-    if n_callers == 1:
-        call(0)
-    else:
-        ths = [threading.Thread(target=call, args=(i,), daemon=True) for i in range(n_callers)]
-        for t in ths:
-            t.start()
-        for t in ths:
-            t.join(60)
-    if errors or any(r is None for r in results):
-        ctx.violate("an evaluator raised or did not return through the wrapper stack", inp, errors[:2], key=f"raise:{kind}:{stack}")
-        return
+    def evaluate_all():
+        for i in range(n_callers):
+            results[i] = None
+        del errors[:]
+        if n_callers == 1:
+            call(0)
+        else:
+            ths = [threading.Thread(target=call, args=(i,), daemon=True) for i in range(n_callers)]
+            for t in ths:
+                t.start()
+            for t in ths:
+                t.join(60)
+        if errors or any(r is None for r in results):
+            ctx.violate("an evaluator raised or did not return through the wrapper stack", inp, errors[:2], key=f"raise:{kind}:{stack}")
+            return False
+        return True
 
-    # ------------------------------------------------------------------ oracle
-    for ci, (cs, ps) in enumerate(callers):
-        got = [float(np.real(v)) for v in results[ci]]
-        if len(got) != len(cs):
-            ctx.violate("an evaluator returned a different number of values than circuits", inp, [len(got), len(cs)], key=f"len:{kind}:{stack}")
-            continue
-        for i, (qc, p) in enumerate(zip(cs, ps)):
-            if kind == "estimator":
-                want = float(np.real(Statevector(compose(init, qc, p)).expectation_value(op)))
-                tol = 1e-9
-            else:
-                probs = ideal_probs(init, qc, p)
-                f = (lambda b: diag_of(op, b)) if kind == "operator_sampler" else (lambda b: table[b])
-                pairs = [(pr, f(b)) for b, pr in probs.items()]
-                want = cvar(pairs, alpha)
-                maxf = max(abs(f(format(j, f"0{nq}b"))) for j in range(2**nq))
-                tol = 2 * (2**nq) * maxf / (alpha * SHOTS) + 4 * (1e-8 + 1e-5 * alpha) * maxf / alpha + 1e-9
-            if abs(got[i] - want) > tol:
-                ctx.violate("an evaluator's value differs from the objective of initial-state + bound circuit (beyond the primitive's resolution)", inp,
-                            {"caller": ci, "position": i, "got": got[i], "expected": want, "tolerance": tol}, key=f"value:{kind}:{stack.split('+')[0]}")
+    def check_values(round_no):
+        """oracle: every returned value vs the objective of (initial state + the circuit AS IT IS NOW, bound)"""
+        for ci, (cs, ps) in enumerate(callers):
+            got = [float(np.real(v)) for v in results[ci]]
+            if len(got) != len(cs):
+                ctx.violate("an evaluator returned a different number of values than circuits", inp, [len(got), len(cs)], key=f"len:{kind}:{stack}")
+                continue
+            for i, (qc, p) in enumerate(zip(cs, ps)):
+                if kind == "estimator":
+                    want = float(np.real(Statevector(compose(init, qc, p)).expectation_value(op)))
+                    tol = 1e-9
+                else:
+                    probs = ideal_probs(init, qc, p)
+                    f = (lambda b: diag_of(op, b)) if kind == "operator_sampler" else (lambda b: table[b])
+                    pairs = [(pr, f(b)) for b, pr in probs.items()]
+                    want = cvar(pairs, alpha)
+                    maxf = max(abs(f(format(j, f"0{nq}b"))) for j in range(2**nq))
+                    tol = 2 * (2**nq) * maxf / (alpha * SHOTS) + 4 * (1e-8 + 1e-5 * alpha) * maxf / alpha + 1e-9
+                if abs(got[i] - want) > tol:
+                    what = "an evaluator's value differs from the objective of initial-state + bound circuit (beyond the primitive's resolution)"
+                    if round_no:
+                        what += " [second evaluation by the same evaluator; circuit objects grown in place / new circuits since the first]"
+                    ctx.violate(what, inp, {"caller": ci, "position": i, "got": got[i], "expected": want, "tolerance": tol, "round": round_no},
+                                key=f"value:{kind}:{stack.split('+')[0]}")
+
+    if not evaluate_all():
+        return
+    check_values(0)
+    n_first = len(prim.batches)
+    callers0 = [([c.copy() for c in cs], [list(p) for p in ps]) for cs, ps in callers]  # as evaluated in the first round (for the model part)
+
+    # ------------------------------------------------------------------ the same evaluator used again (state that outlives one call)
+    if second_round:
+        from qiskit.circuit import QuantumCircuit as _QC
+
+        for cs, ps in callers:
+            for j in range(len(cs)):
+                m = rng.randrange(3)
+                if m == 0:
+                    # the caller grows its circuit object in place (no new parameters) and evaluates it again
+                    q = rng.randrange(nq)
+                    if classical or rng.random() < 0.5:
+                        cs[j].x(q)
+                    else:
+                        cs[j].h(q)
+                        cs[j].cx(q, (q + 1) % nq)
+                elif m == 1:
+                    # a brand-new circuit object (the old one is dropped: its id() may be reused)
+                    cs[j], ps[j] = gen_circuit(rng, nq, classical)
+        import gc
+
+        gc.collect()
+        inp["second_round"] = [[[(i.operation.name, [c.find_bit(q).index for q in i.qubits]) for i in c.data] for c in cs] for cs, ps in callers]
+        saved = [list(r) for r in results]
+        if evaluate_all():
+            check_values(1)
+        for i in range(n_callers):
+            results[i] = saved[i]
+    callers = callers0
+    first_batches = prim.batches[:n_first]
 
     # ------------------------------------------------------------------ model
     if drv is None:
@@ -461,7 +509,7 @@ def one_case(ctx, rng, kind, stack, classical, tag):
         cs, ps = callers[0]
         r = drv.ask({"op": "pipeline.evaluate", "n_circuits": len(cs), "n_params": len(ps), "init": init is not None, "kind": "sampler" if is_sampler else "estimator"})
         seen = []
-        for pub in prim.batches[0]:
+        for pub in first_batches[0]:
             circ = pub.circuit
             vals = [float(x) for x in np.asarray(pub.parameter_values.as_array()).ravel()]
             k = None
@@ -484,7 +532,7 @@ def one_case(ctx, rng, kind, stack, classical, tag):
     if kind == "estimator" and classical and stack.startswith("T:"):
         # (c) the observable submitted with each transpiled circuit, the value, the physical placement
         flat = [(qc, p) for cs, ps in callers for qc, p in zip(cs, ps)]
-        for batch in prim.batches:
+        for batch in first_batches:
             for pub in batch:
                 t = pub.circuit
                 lay = t.layout
